@@ -74,6 +74,8 @@ def len_of(I, v):
         return v.length
     if listobj(v) is not None:
         return len(listobj(v))
+    if dictobj(v) is not None:
+        return len(dictobj(v))
     if isinstance(v, SObj):
         f = I.class_attr(v.cls, "__len__")
         if f is not None:
@@ -431,10 +433,20 @@ def listobj(obj):
     return None
 
 
+def dictobj(obj):
+    """python dict behind an SObj whose class subclasses dict (fields['__dict__'])"""
+    if isinstance(obj, SObj) and isinstance(obj.cls, type) and issubclass(obj.cls, dict):
+        return obj.fields.setdefault("__dictdata__", {})
+    return None
+
+
 def subscript(I, obj, idx):
     lo_ = listobj(obj)
     if lo_ is not None:
         return subscript(I, lo_, idx)
+    do_ = dictobj(obj)
+    if do_ is not None and I.class_attr(obj.cls, "__getitem__") is dict.__getitem__:
+        return subscript(I, do_, idx)
     if isinstance(obj, Opaque):
         return Opaque(obj.name + "[]")
     if isinstance(idx, Opaque):
@@ -500,6 +512,9 @@ def store_subscript(I, obj, idx, val):
     lo_ = listobj(obj)
     if lo_ is not None:
         return store_subscript(I, lo_, idx, val)
+    do_ = dictobj(obj)
+    if do_ is not None and I.class_attr(obj.cls, "__setitem__") is dict.__setitem__:
+        return store_subscript(I, do_, idx, val)
     if isinstance(obj, dict):
         return ext().dict_set(I, obj, idx, val)
     if isinstance(obj, list):
@@ -525,6 +540,8 @@ def store_subscript(I, obj, idx, val):
 
 
 def del_subscript(I, obj, idx):
+    if dictobj(obj) is not None:
+        return del_subscript(I, dictobj(obj), idx)
     if isinstance(obj, dict):
         return ext().dict_del(I, obj, idx)
     if isinstance(obj, list) and isinstance(idx, (int, slice)):
